@@ -196,6 +196,33 @@ Definition spec_serve (cf : config) (q : query) (down : option (msg * N)) (work 
                                 end) new_aaaa
        | _, _ => false
        end
+  (* ... and synthesis is due (round 6): behind every gate, for a client that is
+     eligible under either reading, a name outside the excluded zones, a
+     downstream NOERROR reply without a usable native AAAA (under either reading
+     of a mixed-family comparison) and a secondary lookup
+     answered NOERROR, every (prefix, A record) pair the specification asks for
+     is in the reply — wherever the record stands in the A answer (the order of
+     an Answer section carries no meaning) *)
+  && implb (gates && spec_eligible_strict c (q_client q) && (q_type q =? 28) && negb (spec_zone_excluded c (q_name q))
+            && match down with
+               | Some (m, mark) =>
+                   negb (m_trunc m) && negb (m_nq m =? 0) && (m_rcode m =? 0) && (mark =? 0)
+                   (* no usable native AAAA under either reading of a mixed-family comparison
+                      (::/0 covers ::ffff:a.b.c.d numerically, not for Go's Contains) *)
+                   && forallb (fun r => match r with
+                                        | RAAAA _ _ ip => existsb (fun n => spec_in_net n ip && net_contains n ip) (c_excl_aaaa c)
+                                        | _ => true
+                                        end) (m_answer m)
+               | None => false
+               end)
+       match al with
+       | QResp ar =>
+           implb (m_rcode ar =? 0)
+             (let got := flat_map (fun r => match r with RAAAA o' _ ip => [(o', ip)] | _ => [] end)
+                                  (if o_written o then o_answer o else []) in
+              forallb (fun x => pair_in x got) (spec_expected cf (m_answer ar)))
+       | _ => true
+       end
   (* a synthesised answer section (alias chain included) does not outlive the request tree *)
   && implb synth match cut with Some s => forallb (fun r => rr_ttl r <=? s) (o_answer o) | None => true end
   (* ... and so does no reply to an AAAA question that was composed with the help
